@@ -1245,3 +1245,51 @@ def c10_stopspawn(ctx):
             out.fail('C10-STOPSPAWN/' + fn, '%s returns %s for HasMore::No, expected %s: threads keep being spawned for an exhausted source' % (fn, t_str(r.ret), t_str(want)), b.where())
     out.floor('fns', n, 2 if not ctx.fixture else 0)
     return out
+
+
+@rule('C10-CHUNKDEP', 'the chunk size handed to a worker never grows with the amount of input that remains (only with the work already done)')
+def c10_chunkdep(ctx):
+    out = RuleOut('C10-CHUNKDEP')
+    F = ctx.facts
+    HM = 'orx_concurrent_iter::HasMore'
+    yes = F.variant_index(HM, 'Yes')
+    n = 0
+    for b in F.fn_bodies():
+        if b.d.get('impl_self') != 'adt:' + RUNNER or b.kind != 'AssocFn' or 'Option<usize>' not in b.d.get('ret_ty', ''):
+            continue
+        hm = [l for l in b.arg_locals() if 'HasMore' in b.locals[l]['ty']]
+        rem_params = [l for l in b.arg_locals() if b.locals[l]['ty'] == 'usize' and 'remaining' in (b.local_name(l) or '')]
+        R = set()
+        for l in hm:
+            R.add(('field', P(b.local_name(l)), yes, 0))
+        for l in rem_params:
+            R.add(P(b.local_name(l)))
+        if not R:
+            continue
+        n += 1
+        r = ctx.run(b.name)
+        bad = []
+
+        def walk(t):
+            st = [t]
+            while st:
+                x = st.pop()
+                if x is None:
+                    continue
+                if x in R:
+                    bad.append(x)
+                    continue
+                if x[0] == 'bin' and x[1] == 'Sub' and x[3] in R:
+                    # len - remaining = work already done: allowed
+                    st.append(x[2])
+                    continue
+                st.extend(children(x))
+        for alt in alternatives(r.ret):
+            if alt[0] == 'variant' and alt[4] == 'Some':
+                walk(alt[3][0])
+        key = 'C10-CHUNKDEP/' + key_of(b)
+        out.inst(key, not bad, t_str(r.ret)[:200], sample={'fn': key_of(b), 'chunk_size_terms': t_str(r.ret)[:300]})
+        if bad:
+            out.fail(key, '%s computes the next chunk size from the remaining input length (%s): the work a late worker still does after a match grows with the input instead of being bounded' % (key_of(b), t_str(bad[0])), b.where(), {'ret': t_str(r.ret)[:500]})
+    out.floor('chunk_size_fns', n, 2 if not ctx.fixture else 0)
+    return out
